@@ -3,6 +3,7 @@ CONSTANTS
   KeySet = {0, 1}
   PQ <- PQA
   Aligns = {FALSE}
+  Phases = {0}
   MaxOps = 6
   Emit = TRUE
   ErrEffects = FALSE
